@@ -42,6 +42,8 @@ structure DSt where
   ackDel : List String
   /-- a stale close callback removed a fresh instance from the map -/
   orphaned : Bool := false
+  /-- mode stop: GracefulStop has returned (the data directory was copied at that instant) -/
+  stopped : Option Nat := none
 
 def keyNum (k : String) : Nat := match k with | "a" => 1 | "b" => 2 | "c" => 3 | _ => 9
 
@@ -114,7 +116,7 @@ def idOf (n : String) : Nat := match n with | "A" => 1 | "B" => 2 | "C" => 3 | _
 def step (d : DSt) (line : String) : DSt × String :=
   match words line with
   | ["case", _, _, _] =>
-    ({ d with s := init [], gens := [], fileV := [], ths := [], next := 10, flagged := false, markers := [], ackDel := [], orphaned := false }, line)
+    ({ d with s := init [], gens := [], fileV := [], ths := [], next := 10, flagged := false, markers := [], ackDel := [], orphaned := false, stopped := none }, line)
   | ["set", k, v] =>
     let t := d.next
     match acts d (summonActs d t) with
@@ -253,6 +255,23 @@ def step (d : DSt) (line : String) : DSt × String :=
         | some d2 => (d2, "tick closed")
         | none => (d1, "ERR")
       else (d1, "tick noclose")
+  | ["stop"] =>
+    if d.stopped.isSome then (d, "bad-op") else
+    if d.cfg.stopWaitsUntilClosed then
+      -- Close() on every mapped instance (nothing is in flight), then wait until none is mapped
+      let d1 := if d.s.live && !d.s.closing then
+          (acts { d with s := { d.s with closing := true, stage := 1 } } [.closeFlush, .closeDone]).getD d else d
+      match act d1 .exit with
+      | some d2 => ({ d2 with stopped := some 0 }, "stopped open=0")
+      | none => (d, "hang")
+    else
+      -- it returns while the close is still to come
+      let n := if d.s.live then 1 else 0
+      match act d .exit with
+      | some d2 =>
+        let (d3, fl) := flag d d2 "C16-stop-returns-before-swamps-closed"
+        ({ d3 with stopped := some n }, s!"stopped open={n}" ++ fl)
+      | none => (d, "hang")
   | ["close"] =>
     if !d.s.live then (d, "closed") else
     -- Close() itself checks nothing: flip, flush, callback
@@ -262,6 +281,7 @@ def step (d : DSt) (line : String) : DSt × String :=
     | some d2 => (d2, "closed")
     | none => (d, "ERR")
   | ["reopen"] =>
+    if d.stopped.isSome && d.stopped != some 0 then (d, "keys=?") else
     let back := fun (x : DSt) => if (memOf x x.s.gen).any (fun r => x.ackDel.contains r.key) then "\t#F:C16-delete-after-recreate-resurrects" else ""
     if d.s.live then (d, showKeys (memOf d d.s.gen) ++ back d)
     else if d.fileV.isEmpty then (d, "keys=[]")
@@ -279,7 +299,8 @@ def run (args : List String) : IO UInt32 := do
   let yes := fun (k : String) => arg kv k == "yes"
   let cfg : Cfg := { destroyRechecks := yes "destroyRechecksAfterDrain",
                      atomicSummon := yes "listenerReadsTouchUnderLock" && yes "summonTakesVigil",
-                     summonWaitsForUnmap := arg kv "summonWaitsForUnmap" != "no" }
+                     summonWaitsForUnmap := arg kv "summonWaitsForUnmap" != "no",
+                     stopWaitsUntilClosed := arg kv "stopWaitsUntilClosed" != "no" }
   lineLoop step { cfg := cfg, s := init [], gens := [], fileV := [], ths := [], next := 10, flagged := false,
                   recreateDropsMarker := arg kv "recreateDropsDeleteMarker" != "no", markers := [], ackDel := [] }
   return 0
